@@ -602,9 +602,6 @@ impl<'a, 'tcx> Visitor<'tcx> for W<'a, 'tcx> {
             if let Some(i) = l.init {
                 w.visit_expr(i);
             }
-            if let Some(els) = l.els {
-                w.visit_block(els);
-            }
         });
         let mut o = J::obj().set("k", J::s("let")).set("pat", J::s(snip(self.cx, l.pat.span, 80))).set("sub", sub);
         if let Some(i) = l.init {
@@ -612,6 +609,19 @@ impl<'a, 'tcx> Visitor<'tcx> for W<'a, 'tcx> {
         }
         self.loc(l.span, &mut o);
         self.emit(o);
+        // `let PAT = INIT else { DIVERGES };` : the else block is one alternative, falling through the other
+        if let Some(els) = l.els {
+            let t = self.sub(|w| w.visit_block(els));
+            let mut io = J::obj()
+                .set("k", J::s("if"))
+                .set("cond", J::s(format!("!matches({})", snip(self.cx, l.pat.span, 80))))
+                .set("pre", J::Arr(vec![]))
+                .set("then", t)
+                .set("else", J::Arr(vec![]))
+                .set("let_else", J::Bool(true));
+            self.loc(l.span, &mut io);
+            self.emit(io);
+        }
     }
 }
 
